@@ -65,6 +65,13 @@ static std::string small_to_string(long v) {
 }
 extern "C" std::string gr_to_string_i(int v) { return small_to_string(v); }
 extern "C" std::string gr_to_string_m(unsigned long v) { return small_to_string(v > 999 ? 1000 : (long)v); }
+// environment model of the string concatenations that build diagnostics (job option stubs; not used where a concatenated text is
+// compared, i.e. for the loop-counter names of dispatchLoop): the text of a diagnostic is not modelled, the result is flagged as
+// truncated, so that comparing it is a model-bound failure and can never influence a verdict silently
+static std::string no_text() { std::string r; r.__push('~'); r.trunc = 1; return r; }
+extern "C" std::string gr_plus_ss(const std::string &a, const std::string &b) { return no_text(); }
+extern "C" std::string gr_plus_cs(const char *a, const std::string &b) { return no_text(); }
+extern "C" std::string gr_plus_sc(const std::string &a, const char *b) { return no_text(); }
 static int pick(int lo, int hi) { int v = nondet_int(); ASSUME(v >= lo && v <= hi); return v; }
 
 static GenState fresh_state() {
@@ -545,4 +552,446 @@ LABELS_ENTRY(h_labels_fwd, K_GOTO, K_MARK, K_NONE, K_GOTO, K_NONE)     // p: GOT
 LABELS_ENTRY(h_labels_back, K_MARK, K_IF, K_NONE, K_MARK, K_GOTO)      // p: x: IF .. GOTO y     q: z: GOTO w
 LABELS_ENTRY(h_labels_two, K_IF, K_GOTO, K_MARK, K_MARK, K_NONE)       // p: IF .. GOTO x; GOTO y; z: ...   q: w: ...
 LABELS_ENTRY(h_labels_mix, K_GOTO, K_MARK, K_MARK, K_IF, K_MARK)       // p: GOTO x; y: z: ...   q: IF .. GOTO w; v: ...
+#endif
+
+// =========================================================================================================
+// 5. C02: the real Theo::gen() (gen_ast, dispatchVoid, dispatchValue, dispatchProgram, dispatchLoop, ... popSymbols, backpatch) on
+// the tree SHAPES an error-free parse can deliver, each built exactly as S / PORTS / OPORTS / ARGS / P / MOREP / VALUE / VARGS /
+// MVARGS of parse.cpp build it - in particular with the children that are NULL on error-free parses: PORTS absent, OPORTS absent,
+// VARGS absent, the `more` of every SPLIT chain.  One entry per shape; shape, names and line labels are constants of the entry
+// (measured: the whole generator with symbolic labels or names gives no verdict; the opcode of an emitted instruction is not a
+// constant for the symbolic execution - Instruction is passed in two 64-bit registers and holds a union - so that every error
+// branch of popSymbols/backpatch stays feasible and the state blurs).  These whole-traversal runs are the cross-check of the
+// per-function obligations of part 6, which carry the C02 claim for trees of any size.
+#if GR_PART == 5
+static std::string sym_digit() { std::string s; s.__push((char)('0' + pick(0, 9))); return s; }
+static std::string lit7() { return std::string("7"); }
+static void mkline(Node &n, Node::Type t, const char *tok, Node *l, Node *r, int line) { mknode(n, t, std::string(tok), l, r); n.line = line; }
+// The frame of Theo::gen() around the traversal, statement by statement as in gen.cpp.  Theo::gen() itself receives the AST by value
+// and copies it into its GenState; that copy reaches CBMC as a byte-wise memcpy into the GenState object (ir2c keeps the memcpy of a
+// struct whose first member is a bool), after which no field of the state is a constant for the symbolic execution and the traversal
+// gives no verdict.  Therefore the shapes enter the real gen_ast() from a state that is built field by field here; that the real
+// Theo::gen() builds this frame is obligation h_gen_frame (real Theo::gen(), gen_ast() replaced by an observer), and lib/genh.py
+// compares the text of Theo::gen() with the statement list mirrored here on every run.
+static CodegenResult run_gen(Node *root) {
+  init_names();
+  GenState gs = {.in = {}, .out = {.code = {}, .stack_maps = {}, .potential_breaks = {}, .line_info = {}}, .errors = {}, .symbols = {},
+                 .funcAddrs = {}, .labels = {}, .backpatching_todo = {}, .fs = {.name = "#root_file_context", .line = 0}};
+  gs.in.parsed_correctly = true; gs.in.root = root;
+  gs.emit(Instruction::PrepareExec(-1, -1, 0));
+  gs.pushSymbols("#root");
+  gen_ast(gs);
+  gs.popSymbols(0);
+  Prog p = gs.funcAddrs["#root"];
+  gs.out.code[0].parameters.prepare.count = p.stack_size;
+  gs.out.code[0].parameters.prepare.index = p.mi;
+  gs.emit(Instruction::Halt());
+  gs.backpatch();
+  return {.generated_correctly = gs.errors.size() == 0, .errors = gs.errors, .code = gs.out, .file_requests = {}};
+}
+static void check_result(const CodegenResult &r, int want_errors) {
+  ASSERT(r.generated_correctly == (r.errors.size() == 0), "C02: generated_correctly holds exactly when no error was recorded");
+  ASSERT((int)r.errors.size() == want_errors, "C02: the tree compiles with exactly the diagnostics its source calls for");
+  int n = (int)r.code.code.size();
+  bool frame = n >= 2 && r.code.code.u.d[0].op == OpCode::PREPARE_EXEC;
+  if (frame) frame = r.code.code.__at(n - 1).op == OpCode::HALT;
+  ASSERT(frame, "C02: the result is a program that starts with the root PREPARE and ends with HALT");
+  ASSERT(r.file_requests.size() == 0, "C02: the generator requests no files");
+}
+#define SHAPE_ENTRY(nm, want) extern "C" void h_shape_##nm() { Node *root = build_##nm(); CodegenResult r = run_gen(root); check_result(r, want); ASSERT(0, "WITNESS: end of h_shape_" #nm " reachable"); }
+#define NODES(...) static Node __VA_ARGS__
+#define N0(n, t, tok) mkline(n, Node::Type::t, tok, NULL, NULL, 1)
+#define N2(n, t, l, r) mkline(n, Node::Type::t, "", l, r, 1)
+#define L2(n, t, l, r, line) mkline(n, Node::Type::t, "", l, r, line)
+
+// x := <d>
+static Node *build_assign() {
+  NODES(x, d, as, s);
+  N0(x, NAME, "x"); mknode(d, Node::Type::NUMBER, sym_digit(), NULL, NULL);
+  N2(as, ASSIGN, &x, &d); N2(s, SPLIT, &as, NULL);
+  return &s;
+}
+SHAPE_ENTRY(assign, 0)
+// x := y;          (line 1)
+// y := <d>         (line 2)
+static Node *build_seq() {
+  NODES(x, y, as1, y2, d, as2, s2, s1);
+  N0(x, NAME, "x"); N0(y, NAME, "y"); N2(as1, ASSIGN, &x, &y);
+  mkline(y2, Node::Type::NAME, "y", NULL, NULL, 2); mknode(d, Node::Type::NUMBER, sym_digit(), NULL, NULL); d.line = 2;
+  L2(as2, ASSIGN, &y2, &d, 2); L2(s2, SPLIT, &as2, NULL, 2); N2(s1, SPLIT, &as1, &s2);
+  return &s1;
+}
+SHAPE_ENTRY(seq, 0)
+// a definition: PROGRAM f <ports> DO <body> END <more>      (S of parse.cpp; ports may be NULL)
+static void mkprogram(Node &sp, Node &prog, Node &hdr, Node &name, Node &bodysp, Node &endm, Node &endn, const char *fname, Node *ports, Node *body, Node *more, int line) {
+  mkline(name, Node::Type::NAME, fname, NULL, NULL, line);
+  mkline(hdr, Node::Type::SPLIT, "", &name, ports, line);
+  mkline(endn, Node::Type::NAME, "END", NULL, NULL, line + 2);
+  mkline(endm, Node::Type::MARK, "", &endn, NULL, line + 2);
+  mkline(bodysp, Node::Type::SPLIT, "", body, &endm, line);
+  mkline(prog, Node::Type::PROGRAM, "", &hdr, &bodysp, line);
+  mkline(sp, Node::Type::SPLIT, "", &prog, more, line);
+}
+// PROGRAM f DO          (1)       PORTS absent, VARGS absent
+//   x0 := <d>           (2)
+// END                   (3)
+// x := RUN f WITH END   (4)
+static Node *build_prog_noports() {
+  NODES(sp, prog, hdr, name, bodysp, endm, endn, x0, d, as, bs, x, f, call, as2, ms);
+  mkline(x0, Node::Type::NAME, "x0", NULL, NULL, 2); mknode(d, Node::Type::NUMBER, lit7(), NULL, NULL); d.line = 2;
+  L2(as, ASSIGN, &x0, &d, 2); L2(bs, SPLIT, &as, NULL, 2);
+  mkline(x, Node::Type::NAME, "x", NULL, NULL, 4); mkline(f, Node::Type::NAME, "f", NULL, NULL, 4);
+  L2(call, CALL, &f, NULL, 4); L2(as2, ASSIGN, &x, &call, 4); L2(ms, SPLIT, &as2, NULL, 4);
+  mkprogram(sp, prog, hdr, name, bodysp, endm, endn, "f", NULL, &bs, &ms, 1);
+  return &sp;
+}
+SHAPE_ENTRY(prog_noports, 0)
+// PROGRAM f IN a DO x0 := a END x := RUN f WITH <d> END        OPORTS absent, one argument (MVARGS absent), all on line 1
+static Node *build_prog_in() {
+  NODES(sp, prog, hdr, name, bodysp, endm, endn, a, args, ports, x0, a2, as, bs, x, f, d, va, call, as2, ms);
+  N0(a, NAME, "a"); N2(args, SPLIT, &a, NULL); N2(ports, SPLIT, &args, NULL);
+  N0(x0, NAME, "x0"); N0(a2, NAME, "a"); N2(as, ASSIGN, &x0, &a2); N2(bs, SPLIT, &as, NULL);
+  N0(x, NAME, "x"); N0(f, NAME, "f"); mknode(d, Node::Type::NUMBER, lit7(), NULL, NULL);
+  N2(va, SPLIT, &d, NULL); N2(call, CALL, &f, &va); N2(as2, ASSIGN, &x, &call); N2(ms, SPLIT, &as2, NULL);
+  mkprogram(sp, prog, hdr, name, bodysp, endm, endn, "f", &ports, &bs, &ms, 1);
+  endn.line = 1; endm.line = 1;
+  return &sp;
+}
+SHAPE_ENTRY(prog_in, 0)
+// PROGRAM f IN a, b OUT c DO   (1)
+//   c := a                     (2)
+// END                          (3)
+// x := RUN f WITH y, <d> END   (4)
+static Node *build_prog_inout() {
+  NODES(sp, prog, hdr, name, bodysp, endm, endn, a, b, ar2, ar1, c, ports, c2, a2, as, bs, x, f, y, d, v2, v1, call, as2, ms);
+  N0(a, NAME, "a"); N0(b, NAME, "b"); N2(ar2, SPLIT, &b, NULL); N2(ar1, SPLIT, &a, &ar2); N0(c, NAME, "c"); N2(ports, SPLIT, &ar1, &c);
+  mkline(c2, Node::Type::NAME, "c", NULL, NULL, 2); mkline(a2, Node::Type::NAME, "a", NULL, NULL, 2); L2(as, ASSIGN, &c2, &a2, 2); L2(bs, SPLIT, &as, NULL, 2);
+  mkline(x, Node::Type::NAME, "x", NULL, NULL, 4); mkline(f, Node::Type::NAME, "f", NULL, NULL, 4); mkline(y, Node::Type::NAME, "y", NULL, NULL, 4);
+  mknode(d, Node::Type::NUMBER, lit7(), NULL, NULL); d.line = 4;
+  L2(v2, SPLIT, &d, NULL, 4); L2(v1, SPLIT, &y, &v2, 4); L2(call, CALL, &f, &v1, 4); L2(as2, ASSIGN, &x, &call, 4); L2(ms, SPLIT, &as2, NULL, 4);
+  mkprogram(sp, prog, hdr, name, bodysp, endm, endn, "f", &ports, &bs, &ms, 1);
+  return &sp;
+}
+SHAPE_ENTRY(prog_inout, 0)
+// PROGRAM f IN a DO x0 := a END x := RUN f WITH END        wrong number of arguments, VARGS absent
+static Node *build_argsize() {
+  NODES(sp, prog, hdr, name, bodysp, endm, endn, a, args, ports, x0, a2, as, bs, x, f, call, as2, ms);
+  N0(a, NAME, "a"); N2(args, SPLIT, &a, NULL); N2(ports, SPLIT, &args, NULL);
+  N0(x0, NAME, "x0"); N0(a2, NAME, "a"); N2(as, ASSIGN, &x0, &a2); N2(bs, SPLIT, &as, NULL);
+  N0(x, NAME, "x"); N0(f, NAME, "f"); N2(call, CALL, &f, NULL); N2(as2, ASSIGN, &x, &call); N2(ms, SPLIT, &as2, NULL);
+  mkprogram(sp, prog, hdr, name, bodysp, endm, endn, "f", &ports, &bs, &ms, 1);
+  endn.line = 1; endm.line = 1;
+  return &sp;
+}
+SHAPE_ENTRY(argsize, 1)
+// x := RUN g WITH <d>, RUN g WITH END END         unknown program, a call as argument (line 1)
+static Node *build_unknown_call() {
+  NODES(x, g, d, g2, inner, v2, v1, call, as, s);
+  N0(x, NAME, "x"); N0(g, NAME, "g"); mknode(d, Node::Type::NUMBER, lit7(), NULL, NULL); N0(g2, NAME, "g"); N2(inner, CALL, &g2, NULL);
+  N2(v2, SPLIT, &inner, NULL); N2(v1, SPLIT, &d, &v2); N2(call, CALL, &g, &v1); N2(as, ASSIGN, &x, &call); N2(s, SPLIT, &as, NULL);
+  return &s;
+}
+SHAPE_ENTRY(unknown_call, 2)
+// PROGRAM f DO x0 := <d> END PROGRAM g IN a DO x0 := RUN f WITH END END x := RUN g WITH RUN f WITH END END     two definitions, nested call
+static Node *build_two_progs() {
+  NODES(sp, prog, hdr, name, bodysp, endm, endn, x0, d, as, bs);
+  NODES(sp2, prog2, hdr2, name2, bodysp2, endm2, endn2, a, args, ports, x02, f1, call1, asb, bs2, x, g, f2, inner, va, call2, as2, ms);
+  N0(x0, NAME, "x0"); mknode(d, Node::Type::NUMBER, lit7(), NULL, NULL); N2(as, ASSIGN, &x0, &d); N2(bs, SPLIT, &as, NULL);
+  N0(a, NAME, "a"); N2(args, SPLIT, &a, NULL); N2(ports, SPLIT, &args, NULL);
+  N0(x02, NAME, "x0"); N0(f1, NAME, "f"); N2(call1, CALL, &f1, NULL); N2(asb, ASSIGN, &x02, &call1); N2(bs2, SPLIT, &asb, NULL);
+  N0(x, NAME, "x"); N0(g, NAME, "g"); N0(f2, NAME, "f"); N2(inner, CALL, &f2, NULL); N2(va, SPLIT, &inner, NULL); N2(call2, CALL, &g, &va);
+  N2(as2, ASSIGN, &x, &call2); N2(ms, SPLIT, &as2, NULL);
+  mkprogram(sp2, prog2, hdr2, name2, bodysp2, endm2, endn2, "g", &ports, &bs2, &ms, 1); endn2.line = 1; endm2.line = 1;
+  mkprogram(sp, prog, hdr, name, bodysp, endm, endn, "f", NULL, &bs, &sp2, 1); endn.line = 1; endm.line = 1;
+  return &sp;
+}
+SHAPE_ENTRY(two_progs, 0)
+// LOOP x DO       (1)
+//   y := y        (2)
+// END             (3)
+static Node *build_loop() {
+  NODES(x, y, y2, as, bs, lp, endn, endm, ls, s);
+  N0(x, NAME, "x"); mkline(y, Node::Type::NAME, "y", NULL, NULL, 2); mkline(y2, Node::Type::NAME, "y", NULL, NULL, 2);
+  L2(as, ASSIGN, &y, &y2, 2); L2(bs, SPLIT, &as, NULL, 2);
+  N2(lp, LOOP, &x, &bs); mkline(endn, Node::Type::NAME, "END", NULL, NULL, 3); L2(endm, MARK, &endn, NULL, 3);
+  N2(ls, SPLIT, &lp, &endm); N2(s, SPLIT, &ls, NULL);
+  return &s;
+}
+SHAPE_ENTRY(loop, 0)
+// WHILE x != 0 DO x := <d> END; STOP       (line 1)
+static Node *build_while() {
+  NODES(x, x2, d, as, bs, wh, endn, endm, ws, st, ss, s);
+  N0(x, NAME, "x"); N0(x2, NAME, "x"); mknode(d, Node::Type::NUMBER, lit7(), NULL, NULL); N2(as, ASSIGN, &x2, &d); N2(bs, SPLIT, &as, NULL);
+  N2(wh, WHILE, &x, &bs); N0(endn, NAME, "END"); N2(endm, MARK, &endn, NULL); N2(ws, SPLIT, &wh, &endm);
+  N0(st, STOP, "STOP"); N2(ss, SPLIT, &st, NULL); N2(s, SPLIT, &ws, &ss);
+  return &s;
+}
+SHAPE_ENTRY(while, 0)
+// l: x := <d>;          (1)
+// IF x = 0 THEN GOTO l; (2)
+// GOTO l                (3)
+static Node *build_jumps() {
+  NODES(l, mk, x, d, as, x2, c, eq, l2, go, iff, l3, go2, s3, s2, s1, comb, s0);
+  N0(l, NAME, "l"); N2(mk, MARK, &l, NULL); N0(x, NAME, "x"); mknode(d, Node::Type::NUMBER, lit7(), NULL, NULL); N2(as, ASSIGN, &x, &d);
+  mkline(x2, Node::Type::NAME, "x", NULL, NULL, 2); mkline(c, Node::Type::NUMBER, "0", NULL, NULL, 2); L2(eq, EQ, &x2, &c, 2);
+  mkline(l2, Node::Type::NAME, "l", NULL, NULL, 2); L2(go, GOTO, &l2, NULL, 2); L2(iff, IF, &eq, &go, 2);
+  mkline(l3, Node::Type::NAME, "l", NULL, NULL, 3); L2(go2, GOTO, &l3, NULL, 3);
+  L2(s3, SPLIT, &go2, NULL, 3); L2(s2, SPLIT, &iff, &s3, 2); N2(s1, SPLIT, &as, &s2);
+  N2(comb, SPLIT, &mk, &s1); N2(s0, SPLIT, &comb, NULL);
+  return &s0;
+}
+SHAPE_ENTRY(jumps, 0)
+// GOTO l          label never set: UNKNOWN_MARK from popSymbols and from backpatch
+static Node *build_unknown_mark() {
+  NODES(l, go, s);
+  N0(l, NAME, "l"); N2(go, GOTO, &l, NULL); N2(s, SPLIT, &go, NULL);
+  return &s;
+}
+SHAPE_ENTRY(unknown_mark, 2)
+// x := y + <d>; x := x - <d>        the standard macros: RUN __INC__ WITH y, <d> END with the call taken from the file __standards__
+static Node *build_sugar() {
+  NODES(x, inc, y, d, v2, v1, call, as, x2, dec, x3, d2, w2, w1, call2, as2, s2, s1);
+  N0(x, NAME, "x"); N0(inc, NAME, "__INC__"); inc.file = std::string("__standards__"); N0(y, NAME, "y"); mknode(d, Node::Type::NUMBER, lit7(), NULL, NULL);
+  N2(v2, SPLIT, &d, NULL); N2(v1, SPLIT, &y, &v2); N2(call, CALL, &inc, &v1); call.file = std::string("__standards__"); N2(as, ASSIGN, &x, &call);
+  N0(x2, NAME, "x"); N0(dec, NAME, "__DEC__"); dec.file = std::string("__standards__"); N0(x3, NAME, "x"); mknode(d2, Node::Type::NUMBER, lit7(), NULL, NULL);
+  N2(w2, SPLIT, &d2, NULL); N2(w1, SPLIT, &x3, &w2); N2(call2, CALL, &dec, &w1); call2.file = std::string("__standards__"); N2(as2, ASSIGN, &x2, &call2);
+  N2(s2, SPLIT, &as2, NULL); N2(s1, SPLIT, &as, &s2);
+  return &s1;
+}
+SHAPE_ENTRY(sugar, 0)
+
+// a failed parse: the errors are forwarded one to one as PARSE_ERROR, nothing is generated from the (partial) tree
+extern "C" void h_parse_errors() {
+  init_names();
+  Node *root = build_assign();
+  AST a; a.parsed_correctly = false; a.root = nondet_bool() ? root : NULL;
+  int n = pick(1, 2);
+  int line[2], file[2];
+  for (int i = 0; i < 2; i++) {
+    SyntaxError e; line[i] = nondet_int(); file[i] = pick(0, 2); e.line = line[i]; e.file = sel3(VN, file[i]); e.msg = sel3(FN, file[i]);
+    if (i < n) a.errors.push_back(e);
+  }
+  CodegenResult r = Theo::gen(a);
+  ASSERT(!r.generated_correctly, "C02: a failed parse is never reported as generated correctly");
+  bool fwd = (int)r.errors.size() == n;
+  for (int i = 0; i < 2; i++) if (i < n && fwd) {
+    const CodegenResult::Error &e = r.errors.u.d[i];
+    fwd = e.t == ET::PARSE_ERROR && e.line == line[i] && e.file == sel3(VN, file[i]) && e.message == sel3(FN, file[i]);
+  }
+  ASSERT(fwd, "C02: the parse errors are forwarded one to one, in order, as PARSE_ERROR with their file, line and text; no other error is added");
+  bool empty = r.code.code.size() == 2 && r.code.code.u.d[0].op == OpCode::PREPARE_EXEC && r.code.code.u.d[1].op == OpCode::HALT &&
+               r.code.line_info.size() == 0 && r.code.potential_breaks.size() == 0 && r.code.stack_maps.size() == 1;
+  ASSERT(empty, "C02: nothing is generated from the tree of a failed parse (the program is PREPARE, HALT)");
+  ASSERT(0, "WITNESS: end of h_parse_errors reachable");
+}
+#endif
+
+// =========================================================================================================
+// 6. C02, layer B: every traversal function on every node shape it can meet, with the recursive traversal of the children replaced
+// by an observing contract stub (job option stubs: dispatchVoid -> stub_void; the entries are named harness_* so that THEIR call
+// reaches the real dispatchVoid).  Tree invariant of error-free parses (read off S / P / MOREP / VALUE / VARGS / MVARGS / PORTS /
+// OPORTS / ARGS / MARGS of parse.cpp), which each obligation may assume for the node it is given and for nothing below it:
+//   SPLIT(l, r): l, r statements or NULL            ASSIGN(NAME, value)         LOOP / WHILE(NAME, body)       STOP
+//   MARK(NAME, NULL)      GOTO(NAME, NULL)          IF(EQ(NAME, NUMBER), GOTO(NAME, NULL))
+//   PROGRAM(SPLIT(NAME, ports), body) with ports = NULL or SPLIT(SPLIT(NAME, more-or-NULL), NAME-or-NULL)
+//   value = NAME | NUMBER | CALL(NAME, args) with args = NULL or SPLIT(value, args)
+// Each function dereferences only what the invariant guarantees and hands children (NULL or not) to functions that accept NULL; by
+// induction over the height of the tree the whole traversal is free of null dereferences and container precondition violations.
+#if GR_PART == 6
+static struct VoidCtx { int calls; Node *seen[3]; } V;
+extern "C" void stub_void(GenState &gs, Node *c) {
+  if (V.calls == 0) V.seen[0] = c; if (V.calls == 1) V.seen[1] = c; if (V.calls == 2) V.seen[2] = c;
+  V.calls++;
+  // contract of the traversal of a subtree (established for every node kind by the obligations of this part): code is appended,
+  // the symbol table stack is as before; here: one arbitrary instruction that is neither a jump nor a breakpoint site
+  Instruction ins = Instruction::Add(nondet_int(), nondet_int(), nondet_int());
+  gs.emit(ins);
+}
+static GenState void_state(int line) {
+  GenState gs = fresh_state();
+  gs.fs.line = line;
+  gs.emit(Instruction::PrepareExec(-1, -1, 0));
+  gs.pushSymbols(std::string("#root"));
+  V.calls = 0; V.seen[0] = V.seen[1] = V.seen[2] = NULL;
+  return gs;
+}
+#define VEND(nm) ASSERT(0, "WITNESS: end of " #nm " reachable")
+extern "C" void harness_void_null() {
+  GenState gs = void_state(1);
+  std::vector<RegisterIndex> al;
+  dispatchVoid(gs, NULL); dispatchValue(gs, NULL, 0); dispatchArgs(gs, NULL); dispatchCallArgs(gs, NULL, al);
+  ASSERT(V.calls == 0 && gs.out.code.size() == 1 && gs.errors.size() == 0 && al.size() == 0 && gs.getSymbols().register_state.size() == 0,
+         "C02: an absent subtree (NULL) is accepted by dispatchVoid, dispatchValue, dispatchArgs and dispatchCallArgs and compiles to nothing");
+  VEND(harness_void_null);
+}
+extern "C" void harness_void_split() {
+  GenState gs = void_state(1);
+  Node l, r, s;
+  mknode(l, Node::Type::STOP, std::string(), NULL, NULL); mknode(r, Node::Type::STOP, std::string(), NULL, NULL);
+  bool hl = nondet_bool(), hr = nondet_bool();
+  mknode(s, Node::Type::SPLIT, std::string(), hl ? &l : NULL, hr ? &r : NULL);
+  dispatchVoid(gs, &s);
+  ASSERT(V.calls == 2 && V.seen[0] == (hl ? &l : NULL) && V.seen[1] == (hr ? &r : NULL), "C02: a SPLIT node hands its left and then its right child - present or NULL - to the traversal and looks into neither");
+  ASSERT(gs.errors.size() == 0 && gs.out.code.size() == 3 && gs.symbols.size() == 1, "C02: a SPLIT node itself emits nothing and records no error");
+  VEND(harness_void_split);
+}
+extern "C" void harness_void_assign() {
+  GenState gs = void_state(1);
+  Node x, y, d, as;
+  mknode(x, Node::Type::NAME, std::string("x"), NULL, NULL); mknode(y, Node::Type::NAME, std::string("y"), NULL, NULL);
+  std::string lit; lit.__push((char)('0' + pick(0, 9))); mknode(d, Node::Type::NUMBER, lit, NULL, NULL);
+  bool from_name = nondet_bool();
+  mknode(as, Node::Type::ASSIGN, std::string(), &x, from_name ? &y : &d);
+  dispatchVoid(gs, &as);
+  Instruction ins = code_at(gs, 1);
+  ASSERT(V.calls == 0 && gs.errors.size() == 0 && gs.out.code.size() == 2, "C02: an assignment of a name or a literal compiles to one instruction without error");
+  ASSERT(ins.parameters.add.target == 0 && (from_name ? (ins.op == OpCode::ADD_CONST && ins.parameters.add.source == 1 && ins.parameters.add.constant == 0) : ins.op == OpCode::CONST),
+         "C03: x := y is ADD(reg x, reg y, 0), x := c is CONST(reg x, c), registers allocated in order of first use");
+  ASSERT((int)gs.getSymbols().register_state.size() == (from_name ? 2 : 1), "C03: the assignment allocates registers for exactly the variables it names");
+  VEND(harness_void_assign);
+}
+static bool in_todo(const GenState &gs, int at, int loc) { return at < (int)gs.backpatching_todo.size() && gs.backpatching_todo.u.d[at] == loc; }
+extern "C" void harness_void_loop() {
+  GenState gs = void_state(1);
+  Node x, b, lp;
+  mknode(x, Node::Type::NAME, std::string("x"), NULL, NULL); mknode(b, Node::Type::STOP, std::string(), NULL, NULL);
+  mknode(lp, Node::Type::LOOP, std::string(), &x, nondet_bool() ? &b : NULL);
+  Node *body = lp.right;
+  dispatchVoid(gs, &lp);
+  ASSERT(V.calls == 1 && V.seen[0] == body && gs.errors.size() == 0, "C02: a LOOP node compiles its bound itself and hands its body to the traversal exactly once");
+  ASSERT(gs.out.code.size() == 6, "C03: LOOP emits: counter := bound, JMPC, body, counter - 1, JMP");
+  Instruction init = code_at(gs, 1), jc = code_at(gs, 2), dec = code_at(gs, 4), jm = code_at(gs, 5);
+  int counter = init.parameters.add.target;
+  bool regs = (int)gs.getSymbols().register_state.size() == 2 && counter == 0 && init.op == OpCode::ADD_CONST && init.parameters.add.source == 1 && init.parameters.add.constant == 0;
+  if (regs) { VReg c = reg_at(gs.getSymbols(), 0), v = reg_at(gs.getSymbols(), 1); regs = !c.is_temp && c.in_use && !(c.name == v.name) && v.name == std::string("x"); }
+  ASSERT(regs, "C03: the loop counter is a variable register of its own (never released, not the bound variable), initialised from the bound");
+  ASSERT(jc.op == OpCode::JMPC && jc.parameters.jmpc.source == counter && dec.op == OpCode::ADD_CONST && dec.parameters.add.target == counter && dec.parameters.add.source == counter && dec.parameters.add.constant == -1 && jm.op == OpCode::JMP,
+         "C03: the loop tests and decrements its private counter once per iteration");
+  bool labs = gs.labels.size() == 2 && jm.parameters.jmp.offset == 0 && jc.parameters.jmpc.offset == 1;
+  if (labs) labs = gs.labels.u.d[0] == 2 && gs.labels.u.d[1] == 6;
+  ASSERT(labs, "C03: the back jump carries the label of the loop test, the exit jump the label of the position after the loop; both labels are set");
+  ASSERT(gs.backpatching_todo.size() == 2 && in_todo(gs, 0, 2) && in_todo(gs, 1, 5), "C03: both jumps of the loop are entered in backpatching_todo");
+  VEND(harness_void_loop);
+}
+extern "C" void harness_void_while() {
+  GenState gs = void_state(1);
+  Node x, b, wh;
+  mknode(x, Node::Type::NAME, std::string("x"), NULL, NULL); mknode(b, Node::Type::STOP, std::string(), NULL, NULL);
+  mknode(wh, Node::Type::WHILE, std::string(), &x, nondet_bool() ? &b : NULL);
+  Node *body = wh.right;
+  dispatchVoid(gs, &wh);
+  ASSERT(V.calls == 1 && V.seen[0] == body && gs.errors.size() == 0, "C02: a WHILE node compiles its condition itself and hands its body to the traversal exactly once");
+  ASSERT(gs.out.code.size() == 5, "C03: WHILE emits: condition, JMPC, body, JMP");
+  Instruction ev = code_at(gs, 1), jc = code_at(gs, 2), jm = code_at(gs, 4);
+  int cond = ev.parameters.add.target;
+  bool regs = (int)gs.getSymbols().register_state.size() == 2 && cond == 0 && ev.op == OpCode::ADD_CONST && ev.parameters.add.source == 1;
+  if (regs) { VReg c = reg_at(gs.getSymbols(), 0); regs = c.is_temp && !c.in_use; }
+  ASSERT(regs && jc.op == OpCode::JMPC && jc.parameters.jmpc.source == cond && jm.op == OpCode::JMP, "C03: the condition is evaluated into a temporary that is released after the loop");
+  bool labs = gs.labels.size() == 2 && jm.parameters.jmp.offset == 0 && jc.parameters.jmpc.offset == 1;
+  if (labs) labs = gs.labels.u.d[0] == 1 && gs.labels.u.d[1] == 5;
+  ASSERT(labs, "C03: the back jump carries the label of the condition, the exit jump the label of the position after the loop; both labels are set");
+  ASSERT(gs.backpatching_todo.size() == 2 && in_todo(gs, 0, 2) && in_todo(gs, 1, 4), "C03: both jumps of the loop are entered in backpatching_todo");
+  VEND(harness_void_while);
+}
+// dispatchVoid routes STOP, label, GOTO and IF nodes to their functions
+extern "C" void harness_void_jumps() {
+  GenState gs = void_state(1);
+  Node st, l, mk, l2, go, x, c, eq, l3, go2, iff;
+  mknode(st, Node::Type::STOP, std::string("STOP"), NULL, NULL);
+  mknode(l, Node::Type::NAME, std::string("l"), NULL, NULL); mknode(mk, Node::Type::MARK, std::string(), &l, NULL);
+  mknode(l2, Node::Type::NAME, std::string("l"), NULL, NULL); mknode(go, Node::Type::GOTO, std::string(), &l2, NULL);
+  mknode(x, Node::Type::NAME, std::string("x"), NULL, NULL); mknode(c, Node::Type::NUMBER, std::string("0"), NULL, NULL); mknode(eq, Node::Type::EQ, std::string(), &x, &c);
+  mknode(l3, Node::Type::NAME, std::string("m"), NULL, NULL); mknode(go2, Node::Type::GOTO, std::string(), &l3, NULL); mknode(iff, Node::Type::IF, std::string(), &eq, &go2);
+  dispatchVoid(gs, &st); dispatchVoid(gs, &mk); dispatchVoid(gs, &go); dispatchVoid(gs, &iff);
+  ASSERT(V.calls == 0 && gs.errors.size() == 0, "C02: STOP, label, GOTO and IF nodes are compiled without looking below the children the parser guarantees");
+  ASSERT(gs.out.code.size() == 7 && code_at(gs, 1).op == OpCode::HALT && code_at(gs, 2).op == OpCode::JMP && code_at(gs, 5).op == OpCode::TEST && code_at(gs, 6).op == OpCode::JMPC,
+         "C03: STOP is HALT, GOTO is JMP, IF is operand code, TEST, JMPC");
+  bool labs = gs.labels.size() == 2 && gs.backpatching_todo.size() == 2 && in_todo(gs, 0, 2) && in_todo(gs, 1, 6);
+  if (labs) labs = gs.labels.u.d[0] == 2 && gs.labels.u.d[1] == -1 && code_at(gs, 2).parameters.jmp.offset == 0 && code_at(gs, 6).parameters.jmpc.offset == 1;
+  ASSERT(labs, "C03: a label statement sets its label to the next position, a reference creates an unset label; both jumps are listed");
+  VEND(harness_void_jumps);
+}
+// PROGRAM f DO <body> END on a new line: dispatchVoid drops the breakpoint site of the header line and compiles the definition
+extern "C" void harness_void_program() {
+  GenState gs = void_state(1);
+  Node name, hdr, b, endn, endm, bodysp, prog;
+  mknode(name, Node::Type::NAME, std::string("f"), NULL, NULL); mknode(hdr, Node::Type::SPLIT, std::string(), &name, NULL);
+  mknode(b, Node::Type::STOP, std::string(), NULL, NULL); mknode(endn, Node::Type::NAME, std::string("END"), NULL, NULL);
+  mknode(endm, Node::Type::MARK, std::string(), &endn, NULL); mknode(bodysp, Node::Type::SPLIT, std::string(), &b, &endm);
+  mknode(prog, Node::Type::PROGRAM, std::string(), &hdr, &bodysp); prog.line = 2;
+  dispatchVoid(gs, &prog);
+  ASSERT(V.calls == 1 && V.seen[0] == &bodysp && gs.errors.size() == 0 && gs.symbols.size() == 1, "C02: a definition without ports is compiled without looking at the absent PORTS node; its body goes to the traversal once");
+  ASSERT(gs.out.code.size() == 4 && code_at(gs, 1).op == OpCode::JMP && code_at(gs, 3).op == OpCode::RET, "C03: the breakpoint site of the header line is removed again: the definition is JMP, body, RET");
+  ASSERT(gs.out.line_info.size() == 0 && gs.out.potential_breaks.size() == 0 && gs.funcAddrs.size() == 1, "C02: the tables hold no site for the removed instruction; the definition is recorded");
+  VEND(harness_void_program);
+}
+// node kinds the parser never puts in statement / value position: reported as MALFORMED_AST, never dereferenced
+extern "C" void harness_void_malformed() {
+  GenState gs = void_state(1);
+  Node a, b, c;
+  mknode(a, Node::Type::EQ, std::string(), NULL, NULL); mknode(b, Node::Type::CALL, std::string(), NULL, NULL); mknode(c, Node::Type::ASSIGN, std::string(), NULL, NULL);
+  dispatchVoid(gs, &a); dispatchVoid(gs, &b); dispatchValue(gs, &c, 0);
+  ASSERT(V.calls == 0 && gs.out.code.size() == 1 && gs.errors.size() == 3 && count_err(gs, ET::MALFORMED_AST) == 3, "C02: a node kind that cannot stand in statement or value position is reported as MALFORMED_AST and its children are not touched");
+  VEND(harness_void_malformed);
+}
+extern "C" void harness_gen_ast() {
+  GenState gs = void_state(0);
+  Node s; mknode(s, Node::Type::STOP, std::string(), NULL, NULL);
+  bool ok = nondet_bool(), has_root = nondet_bool();
+  gs.in.parsed_correctly = ok; gs.in.root = has_root ? &s : NULL;
+  int line[2], file[2];
+  for (int i = 0; i < 2; i++) {
+    SyntaxError e; line[i] = nondet_int(); file[i] = pick(0, 2); e.line = line[i]; e.file = sel3(VN, file[i]); e.msg = sel3(FN, file[i]);
+    gs.in.errors.push_back(e);
+  }
+  if (ok) gs.in.errors.clear();
+  gen_ast(gs);
+  if (ok) {
+    ASSERT(V.calls == 1 && V.seen[0] == (has_root ? &s : NULL) && gs.errors.size() == 0, "C02: after a successful parse gen_ast() traverses the root (present or NULL) exactly once and records nothing itself");
+  } else {
+    bool fwd = gs.errors.size() == 2;
+    for (int i = 0; i < 2; i++) if (fwd) { const CodegenResult::Error &e = gs.errors.u.d[i]; fwd = e.t == ET::PARSE_ERROR && e.line == line[i] && e.file == sel3(VN, file[i]) && e.message == sel3(FN, file[i]); }
+    ASSERT(fwd, "C02: after a failed parse gen_ast() forwards the parse errors one to one, in order, as PARSE_ERROR with their file, line and text");
+    ASSERT(V.calls == 0 && gs.out.code.size() == 1, "C02: after a failed parse nothing is generated from the tree");
+  }
+  VEND(harness_gen_ast);
+}
+#endif
+
+// =========================================================================================================
+// 7. the frame of the real Theo::gen() (job option stubs: gen_ast -> stub_frame): what it hands to the traversal and what it makes
+// of the traversal's outcome
+#if GR_PART == 7
+static struct FrameCtx { int calls; Node *root; bool parsed; bool fail; } F;
+extern "C" void stub_frame(GenState &gs) {
+  F.calls++;
+  ASSERT(gs.in.root == F.root && gs.in.parsed_correctly == F.parsed, "C02: gen() hands the AST it was given to the traversal");
+  bool fresh = gs.out.code.size() == 1 && gs.errors.size() == 0 && gs.symbols.size() == 1 && gs.funcAddrs.size() == 0 && gs.labels.size() == 0 && gs.backpatching_todo.size() == 0 && gs.out.stack_maps.size() == 0;
+  if (fresh) fresh = gs.out.code.u.d[0].op == OpCode::PREPARE_EXEC && gs.symbols.u.d[0].name == std::string("#root") && gs.symbols.u.d[0].register_state.size() == 0;
+  ASSERT(fresh, "C02: the traversal starts from the root PREPARE, an empty root symbol table and empty tables");
+  // outcome of a traversal: a variable, a forward jump whose label is set, one more instruction, possibly an error
+  gs.getSymbols().fetchVariableRegister(std::string("x"));
+  int lab = gs.createLabel();
+  gs.emitBackpatched(Instruction::Jmp(lab));
+  gs.emit(Instruction::LoadConstant(0, 1));
+  gs.setLabel(lab, gs.getNextPos());
+  if (F.fail) gs.err(ET::UNKNOWN_PROGRAM_NAME, std::string("e"));
+}
+extern "C" void h_gen_frame() {
+  init_names();
+  Node s; mknode(s, Node::Type::STOP, std::string(), NULL, NULL);
+  AST a; a.parsed_correctly = nondet_bool(); a.root = nondet_bool() ? &s : NULL;
+  F.calls = 0; F.root = a.root; F.parsed = a.parsed_correctly; F.fail = nondet_bool();
+  CodegenResult r = Theo::gen(a);
+  ASSERT(F.calls == 1, "C02: gen() runs the traversal exactly once");
+  ASSERT(r.generated_correctly == !F.fail && (int)r.errors.size() == (F.fail ? 1 : 0), "C02: generated_correctly holds exactly when the traversal recorded no error; the errors are returned");
+  bool shape = r.code.code.size() == 4 && r.file_requests.size() == 0 && r.code.stack_maps.size() == 1;
+  if (shape) {
+    const Instruction &p = r.code.code.u.d[0], &j = r.code.code.u.d[1], &h = r.code.code.u.d[3];
+    shape = p.op == OpCode::PREPARE_EXEC && p.parameters.prepare.count == 1 && p.parameters.prepare.index == 0 && h.op == OpCode::HALT &&
+            j.op == OpCode::JMP && j.parameters.jmp.offset == 2 && r.code.stack_maps.u.d[0].func_name == std::string("#root") && r.code.stack_maps.u.d[0].map.size() == 1;
+  }
+  ASSERT(shape, "C03: gen() closes the root routine (frame size and stack map patched into the root PREPARE), appends HALT and patches the jumps");
+  ASSERT(0, "WITNESS: end of h_gen_frame reachable");
+}
 #endif
